@@ -101,6 +101,10 @@ pub struct Script {
     pub weights: Vec<(String, u32)>,
     pub preempt_den: u32,
     pub net_preempt: bool,
+    /// fault: at `at_ns` the process runs out of file descriptors for a while — the next `count`
+    /// accept attempts on listener 0 that find a pending connection fail with EMFILE
+    #[serde(default)]
+    pub accept_errors: Option<(u64, u32)>,
 }
 
 // ------------------------------------------------------------------------------------------
@@ -595,6 +599,17 @@ async fn driver(script: Script) {
         client_ids.push(sched::spawn(&format!("client{i}"), false, move || Box::pin(client(i, cs, ls, rx, np))));
     }
     let mut aux = Vec::new();
+    if let Some((at_ns, count)) = script.accept_errors {
+        let l0 = listeners[0].clone();
+        aux.push(sched::spawn("fd-exhaustion", false, move || {
+            Box::pin(async move {
+                tokio::time::sleep(Duration::from_nanos(at_ns)).await;
+                l0.lock().unwrap().fail_next = count;
+                sched::count("fault_accept_emfile_armed", 1);
+                slog!("fault: the next {count} accept attempts on listener 0 fail with EMFILE");
+            })
+        }));
+    }
     match &script.shutdown {
         None => {
             // no shutdown at all: requests must simply be served
@@ -1113,7 +1128,7 @@ impl Sim for SrvSim {
             real: vec!["pavex Server, ServerHandle, Acceptor, Worker (runtime/pavex/src/server/*)".into(), "hyper 1.x HTTP/1 connection state machine".into(), "hyper-util auto::Builder + GracefulShutdown".into(), "tokio mpsc/oneshot/watch channels, LocalSet, JoinSet, timers (paused clock)".into()],
             stub: vec!["OS threads → simulated threads (nested LocalSets polled by the seeded scheduler)".into(), "TCP listener and sockets → in-memory pipes (cfg(pavex_verif) seam)".into(), "clients → raw HTTP/1.1 simulator tasks".into(), "wall clock and OS entropy → libc-level seams".into()],
             assumptions: vec!["threads interleave at awaits and at the hooked synchronous preemption points, not between arbitrary instructions".into(), "class A ('received before the call') = dispatched to a worker and fully written before the call, and either never polled by the worker yet (queued) or its head already read; bytes that reach an already-served idle connection but are still unread when the worker processes the shutdown are hyper's documented idle-connection race and are only counted (probe_unread_bytes_on_served_connection_at_call)".into(), "HTTP/1.1 (hand-written client) and HTTP/2 with prior knowledge (hand-written client: preface, SETTINGS, HEADERS with END_STREAM, PING/SETTINGS acknowledgements; no flow-control pressure, no CONTINUATION, no request bodies)".into()],
-            fault_counters: vec!["fault_blocking_handler".into(), "fault_client_disconnect_after_request".into(), "fault_client_disconnect_mid_response".into(), "fault_stalled_reader".into(), "fault_handler_panic".into(), "preemptions_taken".into()],
+            fault_counters: vec!["fault_accept_emfile_armed".into(), "fault_blocking_handler".into(), "fault_client_disconnect_after_request".into(), "fault_client_disconnect_mid_response".into(), "fault_stalled_reader".into(), "fault_handler_panic".into(), "preemptions_taken".into()],
             expected_probes: vec!["probe_all_workers_busy_drop".into(), "probe_shutdown_overtook_queued_connection".into(), "probe_shutdown_with_handler_in_flight".into(), "probe_timeout_elapsed".into(), "probe_connect_after_return".into(), "probe_forced_with_inflight".into(), "probe_waiter_resolved".into(), "probe_second_call_resolved".into(), "class_a_requests".into()],
         }
     }
@@ -1221,15 +1236,24 @@ impl Sim for SrvSim {
                 .map(|_| ConnScript { when: When::At { ns: 0 }, kind: ConnKind::Full, handler_ms: rng.range(0, 3), fault: ConnFault::None, cap_in: 65_536, cap_out: 65_536, listener: 0 })
                 .collect();
             let weights = vec![("pavex-worker".to_string(), 1), ("pavex-acceptor".to_string(), 64), ("client".to_string(), 24), ("driver".to_string(), 1)];
-            return Script { workers, listeners: 1, conns, shutdown, weights, preempt_den: 1000, net_preempt: false };
+            return Script { workers, listeners: 1, conns, shutdown, weights, preempt_den: 1000, net_preempt: false, accept_errors: None };
         }
-        let mut sc = Script { workers, listeners, conns, shutdown, weights, preempt_den: *rng.pick(&[3, 4, 8, 8, 16, 1000]), net_preempt: rng.chance(1, 3) };
+        let mut sc = Script { workers, listeners, conns, shutdown, weights, preempt_den: *rng.pick(&[3, 4, 8, 8, 16, 1000]), net_preempt: rng.chance(1, 3), accept_errors: None };
         // last draws (the rest of the script is the same function of the seed as before this arm
         // existed): one plain connection in five speaks HTTP/2 with 1-4 concurrent requests
         for c in sc.conns.iter_mut() {
             if matches!(c.kind, ConnKind::Full) && matches!(c.fault, ConnFault::None | ConnFault::BlockingHandler | ConnFault::DisconnectAfterRequest) && rng.chance(1, 5) {
                 c.kind = ConnKind::H2 { streams: *rng.pick(&[1, 1, 2, 3, 4]) };
             }
+        }
+        // ... and one run in ten runs out of file descriptors around the time some connection arrives
+        // (often the one that precedes the shutdown call)
+        if !sc.conns.is_empty() && rng.chance(1, 10) {
+            let at = match &sc.conns[rng.usize(0, sc.conns.len() - 1)].when {
+                When::At { ns } => *ns,
+                When::AfterShutdownReturned { .. } => sc.shutdown.as_ref().map(|s| s.at_ns).unwrap_or(0),
+            };
+            sc.accept_errors = Some((at.saturating_sub(*rng.pick(&[0u64, 0, 1_000_000])), *rng.pick(&[1u32, 40, 300, 1000])));
         }
         sc
     }
@@ -1240,6 +1264,16 @@ impl Sim for SrvSim {
 
     fn shrink(s: &Script) -> Vec<Script> {
         let mut c = Vec::new();
+        if let Some((at, n)) = s.accept_errors {
+            let mut t = s.clone();
+            t.accept_errors = None;
+            c.push(t);
+            if n > 1 {
+                let mut t = s.clone();
+                t.accept_errors = Some((at, n / 2));
+                c.push(t);
+            }
+        }
         for i in 0..s.conns.len() {
             if let ConnKind::H2 { streams } = s.conns[i].kind {
                 let mut t = s.clone();
